@@ -122,6 +122,36 @@ def ansatzCallsOp (j : Json) : Json :=
   let o := Tangelo.AnsatzUpdate.Obj.run (fun (_ : Nat) θ => θ) ⟨0, 0⟩ calls
   Json.mkObj [("var", Json.num o.var), ("circ", Json.num o.circ)]
 
+/-- {"op":"oniom_distribute","geom":[[x,y,z],..],"frags":[{"sel":null|n|[..],"links":[[staying,leaving,num],..]},..]}
+    → {"frags":[[[x,y,z],..],..], "independent":[..same, from fragGeom..]}  or {"r":"ERR:index"} -/
+def oniomDistributeOp (j : Json) : Json :=
+  let atomOf := fun (a : Json) => match getIntList? a with
+    | some [x, y, z] => some ((x, y, z) : Tangelo.Decomp.Atom)
+    | _ => none
+  let fragOf := fun (f : Json) => do
+    let sel ← match f.getObjValD "sel" with
+      | .null => some Tangelo.Decomp.Sel.all
+      | .arr a => (getNatList? (.arr a)).map Tangelo.Decomp.Sel.idx
+      | n => (getNat? n).map Tangelo.Decomp.Sel.first
+    let links ← match f.getObjValD "links" with
+      | .arr ls => ls.toList.mapM (fun l => match getIntList? l with
+          | some [s, v, k] => if s < 0 || v < 0 then none else some (⟨s.toNat, v.toNat, k⟩ : Tangelo.Decomp.LinkSpec)
+          | _ => none)
+      | _ => some []
+    pure (⟨sel, links⟩ : Tangelo.Decomp.FragSpec)
+  match j.getObjValD "geom", j.getObjValD "frags" with
+  | .arr g, .arr fs =>
+    match g.toList.mapM atomOf, fs.toList.mapM fragOf with
+    | some geom, some frags =>
+      let enc := fun (gs : List (List Tangelo.Decomp.Atom)) =>
+        Json.arr (gs.map (fun g => Json.arr (g.map (fun (a : Tangelo.Decomp.Atom) => Json.arr #[Json.num a.1, Json.num a.2.1, Json.num a.2.2])).toArray)).toArray
+      match Tangelo.Decomp.distribute geom frags with
+      | some out =>
+        Json.mkObj [("frags", enc out), ("independent", match frags.mapM (Tangelo.Decomp.fragGeom geom) with | some o => enc o | none => Json.null)]
+      | none => Json.mkObj [("r", Json.str "ERR:index")]
+    | _, _ => jErr "oniom_distribute: bad arguments"
+  | _, _ => jErr "oniom_distribute: bad arguments"
+
 end Tangelo.Driver
 
 namespace Tangelo.Driver
